@@ -203,6 +203,8 @@ pub struct Pre {
     pub state: &'static str,
     pub path_validated: bool,
     pub path_challenge: bool,
+    pub path_total_sent: u64,
+    pub path_total_recvd: u64,
 }
 
 #[derive(Debug, Clone, PartialEq, Eq)]
@@ -599,6 +601,8 @@ impl<A: App> World<A> {
                         state: pr.state,
                         path_validated: pr.path_validated,
                         path_challenge: pr.path_challenge,
+                        path_total_sent: pr.path_total_sent,
+                        path_total_recvd: pr.path_total_recvd,
                     })
                 });
                 buf.clear();
